@@ -147,6 +147,46 @@ class Fold(ast.NodeTransformer):
     def visit_Call(self, n):
         self.generic_visit(n)
         n.args = self._flatten_starred(n.args)
+        # K(a=x, b=y).m()  with K a plain record and m a method without parameters whose body is one `return E` over self.<field>s
+        # ->  E with the fields read from the construction (cheap arguments: names, paths, slices of them)
+        if self.repo is not None and isinstance(n.func, ast.Attribute) and not n.args and not n.keywords and isinstance(n.func.value, ast.Call) \
+                and isinstance(n.func.value.func, ast.Name):
+            from .normalize import record_fields, record_value
+            rec = n.func.value
+            fl = record_fields(self.repo, self.f.mod, rec.func.id, allow_methods=True)
+            cq_ = self.repo.chase(self.f.mod, rec.func.id)
+            m_ = self.repo.funcs.get(f"{cq_}.{n.func.attr}") if cq_ else None
+            if fl and m_ is not None and m_.params == ["self"] and not m_.node.decorator_list \
+                    and all(_cheap(a_) or _const(a_) for a_ in list(rec.args) + [k_.value for k_ in rec.keywords]):
+                body_ = [st for st in m_.node.body if not (isinstance(st, ast.Expr) and isinstance(st.value, ast.Constant))]
+                if len(body_) == 1 and isinstance(body_[0], ast.Return) and body_[0].value is not None:
+                    e_ = copy.deepcopy(body_[0].value)
+                    selfs = [x for x in ast.walk(e_) if isinstance(x, ast.Name) and x.id == "self"]
+                    attrs = [x for x in ast.walk(e_) if isinstance(x, ast.Attribute) and isinstance(x.value, ast.Name) and x.value.id == "self"]
+                    vals_ = {a_.attr: record_value(self.repo, self.f.mod, rec, a_.attr) for a_ in attrs}
+                    if len(selfs) == len(attrs) and attrs and all(v_ is not None for v_ in vals_.values()) and (m_.mod == self.f.mod or not any(
+                            isinstance(x, ast.Name) and x.id not in ("self", "zip", "len", "list", "tuple", "range", "enumerate", "sum", "min", "max", "sorted") for x in ast.walk(e_))):
+                        class _S(ast.NodeTransformer):
+                            def visit_Attribute(self, a_):
+                                if isinstance(a_.value, ast.Name) and a_.value.id == "self" and a_.attr in vals_:
+                                    return copy.deepcopy(vals_[a_.attr])
+                                return self.generic_visit(a_)
+                        self.changed = True
+                        return ast.copy_location(_S().visit(e_), n)
+        # f(**{"a": x, "b": y})  ->  f(a=x, b=y)     (a display with constant identifier keys, no repeated keyword)
+        if any(k.arg is None and isinstance(k.value, ast.Dict) for k in n.keywords):
+            kws, ok_ = [], True
+            for k in n.keywords:
+                if k.arg is None and isinstance(k.value, ast.Dict) and k.value.keys and None not in k.value.keys \
+                        and all(isinstance(kk, ast.Constant) and isinstance(kk.value, str) and kk.value.isidentifier() for kk in k.value.keys):
+                    kws += [ast.keyword(arg=kk.value, value=vv) for kk, vv in zip(k.value.keys, k.value.values)]
+                else:
+                    kws.append(k)
+            names_ = [k.arg for k in kws if k.arg is not None]
+            if len(names_) == len(set(names_)) and len(kws) != len(n.keywords) or (len(names_) == len(set(names_)) and any(k.arg is None and isinstance(k.value, ast.Dict) and k.value.keys for k in n.keywords)
+                                                                                   and not any(k.arg is None and isinstance(k.value, ast.Dict) for k in kws)):
+                n.keywords = kws
+                self.changed = True
         if self.repo is not None and isinstance(n.func, ast.Name) and n.func.id[:1].isupper() or (isinstance(n.func, ast.Name) and n.func.id.startswith("_")):
             from .normalize import complete_record_call
             if self.repo is not None and complete_record_call(self.repo, self.f.mod, n):
@@ -491,6 +531,15 @@ class Fold(ast.NodeTransformer):
 
     def visit_Attribute(self, n):
         self.generic_visit(n)
+        # K._fields  with K a NamedTuple record class of the repository  ->  the tuple of its field names
+        if self.repo is not None and isinstance(n.ctx, ast.Load) and n.attr == "_fields" and isinstance(n.value, ast.Name) and n.value.id not in self._module_names():
+            from .normalize import record_fields
+            fl = record_fields(self.repo, self.f.mod, n.value.id)
+            cq_ = self.repo.chase(self.f.mod, n.value.id)
+            cn_ = self.repo.classes.get(cq_) if cq_ else None
+            if fl and cn_ is not None and any(U(b) in ("NamedTuple", "typing.NamedTuple") for b in cn_.bases):
+                self.changed = True
+                return ast.copy_location(ast.Tuple(elts=[ast.Constant(value=x) for x in fl], ctx=ast.Load()), n)
         # K(a, b, c).field  with K a plain record class of the repository  ->  the argument bound to the field
         if self.repo is not None and isinstance(n.ctx, ast.Load) and isinstance(n.value, ast.Call) and isinstance(n.value.func, ast.Name):
             from .normalize import record_value
@@ -3100,6 +3149,15 @@ def split_record_lists(repo, f):
     for n in ast.walk(fnode):
         for c in ast.iter_child_nodes(n):
             par[c] = n
+    # `L: list[K] = []` is `L = []`
+    for owner in ast.walk(fnode):
+        for fld in ("body", "orelse", "finalbody"):
+            lst_ = getattr(owner, fld, None)
+            if isinstance(lst_, list):
+                for k_, st in enumerate(lst_):
+                    if isinstance(st, ast.AnnAssign) and st.simple and isinstance(st.target, ast.Name) and isinstance(st.value, ast.List) and not st.value.elts:
+                        lst_[k_] = ast.copy_location(ast.Assign(targets=[st.target], value=st.value), st)
+                        par[lst_[k_]] = owner
     inits = [st for st in walk_own(fnode) if isinstance(st, ast.Assign) and len(st.targets) == 1 and isinstance(st.targets[0], ast.Name) and isinstance(st.value, ast.List)
              and not st.value.elts and binds.get(st.targets[0].id) == 1 and st.targets[0].id not in _CAPTURED]
     for init in inits:
@@ -3293,6 +3351,331 @@ def scalarise_conditional_records(repo, f):
     return False
 
 
+def split_conditional_tuples(fnode, counter):
+    """if c: ..; t = (a0, a1, ..)  else: ..; t = (b0, b1, ..)      (the only two bindings of t: one direct statement in each arm, displays of one length)
+    ->  if c: ..; t__0 = a0; t__1 = a1; ..  else: ..; t__0 = b0; ..      followed by   t = (t__0, t__1, ..)
+    so that t is bound once, to a display of names (what it holds is then read position by position by the tuple passes)"""
+    binds = {}
+    for x in ast.walk(fnode):
+        if isinstance(x, ast.Name) and isinstance(x.ctx, (ast.Store, ast.Del)):
+            binds[x.id] = binds.get(x.id, 0) + 1
+    all_names = {x.id for x in ast.walk(fnode) if isinstance(x, ast.Name)}
+
+    def tuple_binds(block):
+        return {st.targets[0].id: st for st in block if isinstance(st, ast.Assign) and len(st.targets) == 1 and isinstance(st.targets[0], ast.Name)
+                and isinstance(st.value, ast.Tuple) and st.value.elts and not any(isinstance(e, ast.Starred) for e in st.value.elts)}
+
+    def rewrite(stmts):
+        for st in stmts:
+            for fld in ("body", "orelse", "finalbody"):
+                sub = getattr(st, fld, None)
+                if isinstance(sub, list) and sub and isinstance(sub[0], ast.stmt) and not isinstance(st, (ast.FunctionDef, ast.AsyncFunctionDef, ast.ClassDef)):
+                    r = rewrite(sub)
+                    if r is not None:
+                        setattr(st, fld, r)
+                        return stmts
+        for i, st in enumerate(stmts):
+            if not (isinstance(st, ast.If) and st.orelse):
+                continue
+            a, b = tuple_binds(st.body), tuple_binds(st.orelse)
+            for t in sorted(set(a) & set(b)):
+                if binds.get(t) != 2 or t in _CAPTURED or len(a[t].value.elts) != len(b[t].value.elts):
+                    continue
+                n = len(a[t].value.elts)
+                k = counter[0]
+                names = [f"{t}__c{k}_{j}" for j in range(n)]
+                if any(nm in all_names for nm in names):
+                    continue
+                # every read of t follows the `if` in this statement list (or sits in a later statement of an arm, after the binding):
+                # the fresh names are bound nowhere else, so the display of them can stand wherever t is read
+                later_ids = {id(x) for y in stmts[i + 1:] for x in ast.walk(y)}
+                for blk, asg in ((st.body, a[t]), (st.orelse, b[t])):
+                    j_ = [q for q, y in enumerate(blk) if y is asg][0]
+                    later_ids |= {id(x) for y in blk[j_ + 1:] for x in ast.walk(y)}
+                loads = [x for x in ast.walk(fnode) if isinstance(x, ast.Name) and x.id == t and isinstance(x.ctx, ast.Load)]
+                if not loads or any(id(x) not in later_ids for x in loads):
+                    continue
+                counter[0] += 1
+                # a position that holds the same once-bound name in both arms is that name
+                params_ = {p_.arg for p_ in fnode.args.posonlyargs + fnode.args.args + fnode.args.kwonlyargs}
+                same = {j for j, (x, y) in enumerate(zip(a[t].value.elts, b[t].value.elts)) if isinstance(x, ast.Name) and isinstance(y, ast.Name) and x.id == y.id
+                        and binds.get(x.id, 0) == (0 if x.id in params_ else 1)}
+                for j in same:
+                    names[j] = a[t].value.elts[j].id
+                for blk, asg in ((st.body, a[t]), (st.orelse, b[t])):
+                    j_ = [q for q, y in enumerate(blk) if y is asg][0]
+                    blk[j_:j_ + 1] = [ast.Assign(targets=[ast.Name(id=nm, ctx=ast.Store())], value=e, lineno=asg.lineno, col_offset=0)
+                                      for j, (nm, e) in enumerate(zip(names, asg.value.elts)) if j not in same] or [ast.Pass()]
+
+                class R(ast.NodeTransformer):
+                    def visit_Name(self, x):
+                        if x.id == t and isinstance(x.ctx, ast.Load):
+                            return ast.copy_location(ast.Tuple(elts=[ast.Name(id=nm, ctx=ast.Load()) for nm in names], ctx=ast.Load()), x)
+                        return x
+                for y in stmts:
+                    R().visit(y)
+                return stmts
+        return None
+    r = rewrite(fnode.body)
+    if r is None:
+        return False
+    fnode.body = r
+    ast.fix_missing_locations(fnode)
+    return True
+
+
+def drop_dead_constant_stores(fnode):
+    """if c: ..; v = <constant>; ..; <exit>  else: ..; v = E; .. reads of v ..        (every read of v in the function sits in the other arm, after that
+    arm's own top-level binding of v; the arm with the constant store ends in return / raise / continue / break and does not read v)
+    ->  the constant store is dropped: no read can see it."""
+    changed = False
+    loads = {}
+    for x in ast.walk(fnode):
+        if isinstance(x, ast.Name) and isinstance(x.ctx, ast.Load):
+            loads.setdefault(x.id, []).append(x)
+
+    def visit(stmts):
+        nonlocal changed
+        for st in stmts:
+            for fld in ("body", "orelse", "finalbody"):
+                sub = getattr(st, fld, None)
+                if isinstance(sub, list) and sub and isinstance(sub[0], ast.stmt) and not isinstance(st, (ast.FunctionDef, ast.AsyncFunctionDef, ast.ClassDef)):
+                    visit(sub)
+            if not (isinstance(st, ast.If) and st.orelse):
+                continue
+            for mine, other in ((st.body, st.orelse), (st.orelse, st.body)):
+                if not mine or not isinstance(mine[-1], (ast.Return, ast.Raise, ast.Continue, ast.Break)):
+                    continue
+                for k, a_ in enumerate(list(mine)):
+                    if not (isinstance(a_, ast.Assign) and len(a_.targets) == 1 and isinstance(a_.targets[0], ast.Name) and isinstance(a_.value, ast.Constant)):
+                        continue
+                    v = a_.targets[0].id
+                    if v in _CAPTURED:
+                        continue
+                    bind_pos = [j for j, y in enumerate(other) if isinstance(y, ast.Assign) and len(y.targets) == 1 and isinstance(y.targets[0], ast.Name) and y.targets[0].id == v]
+                    if not bind_pos:
+                        continue
+                    ok_ids = {id(x) for y in other[bind_pos[0] + 1:] for x in ast.walk(y)}
+                    if all(id(x) in ok_ids for x in loads.get(v, [])):
+                        mine.remove(a_)
+                        changed = True
+    visit(fnode.body)
+    if changed:
+        ast.fix_missing_locations(fnode)
+    return changed
+
+
+def project_comprehension_locals(fnode):
+    """P = [x.a for x in L]      (P bound once; L a parameter or a local bound once; the element an attribute path of the variable)
+    read only as P[c], P[a:b] (constant bounds), len(P) or iterated
+    ->  P[c] is L[c].a ; P[a:b] is [x.a for x in L[a:b]] ; len(P) is len(L) ; iteration runs over the comprehension itself.
+    The statements from the binding to the last read make no call (other than len / range / zip / enumerate) and store through no
+    attribute or subscript, so the attribute read later is the one read at the binding."""
+    binds = {}
+    for x in ast.walk(fnode):
+        if isinstance(x, ast.Name) and isinstance(x.ctx, (ast.Store, ast.Del)):
+            binds[x.id] = binds.get(x.id, 0) + 1
+    params = {p_.arg for p_ in fnode.args.posonlyargs + fnode.args.args + fnode.args.kwonlyargs}
+
+    def blocks(stmts):
+        yield stmts
+        for st in stmts:
+            if isinstance(st, (ast.FunctionDef, ast.AsyncFunctionDef, ast.ClassDef)):
+                continue
+            for fld in ("body", "orelse", "finalbody"):
+                sub = getattr(st, fld, None)
+                if isinstance(sub, list) and sub and isinstance(sub[0], ast.stmt):
+                    yield from blocks(sub)
+    for lst in blocks(fnode.body):
+        for i, st in enumerate(lst):
+            if not (isinstance(st, ast.Assign) and len(st.targets) == 1 and isinstance(st.targets[0], ast.Name) and isinstance(st.value, ast.ListComp)):
+                continue
+            P = st.targets[0].id
+            comp = st.value
+            if binds.get(P) != 1 or P in _CAPTURED or len(comp.generators) != 1 or comp.generators[0].ifs or comp.generators[0].is_async \
+                    or not isinstance(comp.generators[0].target, ast.Name) or not isinstance(comp.generators[0].iter, ast.Name):
+                continue
+            xv, L = comp.generators[0].target.id, comp.generators[0].iter.id
+            e = comp.elt
+            root = e
+            while isinstance(root, ast.Attribute):
+                root = root.value
+            if not (isinstance(e, ast.Attribute) and isinstance(root, ast.Name) and root.id == xv) or binds.get(L, 0) != (0 if L in params else 1):
+                continue
+            par = {}
+            for y in lst:
+                for p_ in ast.walk(y):
+                    for c_ in ast.iter_child_nodes(p_):
+                        par[c_] = p_
+            uses = [x for x in ast.walk(fnode) if isinstance(x, ast.Name) and x.id == P and isinstance(x.ctx, ast.Load)]
+            later = {id(x): j for j, y in enumerate(lst) if j > i for x in ast.walk(y)}
+            if not uses or any(id(u) not in later for u in uses):
+                continue
+            last = max(later[id(u)] for u in uses)
+            quiet = True
+            for y in lst[i + 1:last + 1]:
+                for x in ast.walk(y):
+                    if isinstance(x, ast.Call) and not (isinstance(x.func, ast.Name) and x.func.id in ("len", "range", "zip", "enumerate") and x.func.id not in binds):
+                        quiet = False
+                    if isinstance(x, (ast.Attribute, ast.Subscript)) and isinstance(x.ctx, (ast.Store, ast.Del)):
+                        quiet = False
+            if not quiet:
+                continue
+
+            def const_int(b_):
+                return b_ is None or (isinstance(b_, ast.Constant) and isinstance(b_.value, int) and not isinstance(b_.value, bool))
+            plan = []
+            for u in uses:
+                p_ = par.get(u)
+                if isinstance(p_, ast.Subscript) and p_.value is u and isinstance(p_.ctx, ast.Load):
+                    sl = p_.slice
+                    if isinstance(sl, ast.Constant) and isinstance(sl.value, int) and not isinstance(sl.value, bool):
+                        plan.append((p_, "item"))
+                        continue
+                    if isinstance(sl, ast.Slice) and const_int(sl.lower) and const_int(sl.upper) and sl.step is None:
+                        plan.append((p_, "slice"))
+                        continue
+                if isinstance(p_, ast.Call) and isinstance(p_.func, ast.Name) and p_.func.id == "len" and "len" not in binds and len(p_.args) == 1:
+                    plan.append((p_, "len"))
+                    continue
+                if isinstance(p_, (ast.For, ast.comprehension)) and p_.iter is u:
+                    plan.append((u, "iter"))
+                    continue
+                plan = None
+                break
+            if not plan:
+                continue
+            repl = {}
+            for node, how in plan:
+                if how == "item":
+                    repl[id(node)] = _Sub({xv: ast.Subscript(value=ast.Name(id=L, ctx=ast.Load()), slice=copy.deepcopy(node.slice), ctx=ast.Load())}, {}).visit(copy.deepcopy(e))
+                elif how == "slice":
+                    c2 = copy.deepcopy(comp)
+                    c2.generators[0].iter = ast.Subscript(value=ast.Name(id=L, ctx=ast.Load()), slice=copy.deepcopy(node.slice), ctx=ast.Load())
+                    repl[id(node)] = c2
+                elif how == "len":
+                    n2 = copy.deepcopy(node)
+                    n2.args = [ast.Name(id=L, ctx=ast.Load())]
+                    repl[id(node)] = n2
+                else:
+                    repl[id(node)] = copy.deepcopy(comp)
+
+            class R(ast.NodeTransformer):
+                def visit(self, n):
+                    if id(n) in repl:
+                        return ast.copy_location(repl[id(n)], n)
+                    return super().visit(n)
+            for j in range(i + 1, len(lst)):
+                lst[j] = R().visit(lst[j])
+            del lst[i]
+            ast.fix_missing_locations(fnode)
+            return True
+    return False
+
+
+def fuse_collect_then_iterate(fnode):
+    """L = []; for ..: ..; L.append(E)        (the append is the last statement its iteration executes; the loop otherwise only binds names
+    from call-free or numpy / builtin expressions)   followed - with nothing that mentions L in between - by   for x in L: BODY
+    (L mentioned nowhere else; BODY without break and without stores to a name the first loop reads)
+    ->  for ..: ..; x = E; BODY      Each element is consumed right after it is produced instead of after the whole list is built;
+    with a producing loop that has no effects of its own the consumer sees the same elements in the same order.
+    Assumption A-consumer-does-not-reach-producer: the calls of BODY do not modify the arrays the producing loop reads."""
+    binds, mentions = {}, {}
+    for x in ast.walk(fnode):
+        if isinstance(x, ast.Name):
+            mentions[x.id] = mentions.get(x.id, 0) + 1
+            if isinstance(x.ctx, (ast.Store, ast.Del)):
+                binds[x.id] = binds.get(x.id, 0) + 1
+
+    def pure_expr(e):
+        for y in ast.walk(e):
+            if isinstance(y, ast.Call):
+                fn_ = U(y.func)
+                if not (fn_ in _PURE_CALL_NAMES or fn_.startswith(_PURE_CALL_PREFIXES) or fn_ in ("logit", "expit", "range", "zip", "enumerate")
+                        or (isinstance(y.func, ast.Attribute) and y.func.attr in ("astype", "tolist", "item", "copy", "sum", "any", "all"))
+                        or (isinstance(y.func, ast.Name) and y.func.id[:1].isupper())):
+                    return False
+            if isinstance(y, (ast.NamedExpr, ast.Await, ast.Yield, ast.YieldFrom, ast.Lambda)):
+                return False
+        return True
+
+    def blocks(stmts):
+        yield stmts
+        for st in stmts:
+            if isinstance(st, (ast.FunctionDef, ast.AsyncFunctionDef, ast.ClassDef)):
+                continue
+            for fld in ("body", "orelse", "finalbody"):
+                sub = getattr(st, fld, None)
+                if isinstance(sub, list) and sub and isinstance(sub[0], ast.stmt):
+                    yield from blocks(sub)
+    for lst in blocks(fnode.body):
+        for i, st in enumerate(lst):
+            if not (isinstance(st, ast.Assign) and len(st.targets) == 1 and isinstance(st.targets[0], ast.Name) and isinstance(st.value, ast.List) and not st.value.elts):
+                continue
+            L = st.targets[0].id
+            if binds.get(L) != 1 or L in _CAPTURED or mentions.get(L) != 3:
+                continue
+            prod = [j for j in range(i + 1, len(lst)) if isinstance(lst[j], ast.For) and not lst[j].orelse
+                    and any(isinstance(x, ast.Name) and x.id == L for x in ast.walk(lst[j])) and not (isinstance(lst[j].iter, ast.Name) and lst[j].iter.id == L)]
+            cons = [j for j in range(i + 1, len(lst)) if isinstance(lst[j], ast.For) and isinstance(lst[j].iter, ast.Name) and lst[j].iter.id == L and not lst[j].orelse
+                    and isinstance(lst[j].target, ast.Name)]
+            if len(prod) != 1 or len(cons) != 1 or cons[0] <= prod[0]:
+                continue
+            P, C = lst[prod[0]], lst[cons[0]]
+            if any(isinstance(x, ast.Name) and x.id == L for y in lst[prod[0] + 1:cons[0]] for x in ast.walk(y)):
+                continue
+            # the append: last statement of the producing loop's body, possibly under ifs (last statement of that arm, nothing after the if)
+            blk = P.body
+            path_ok = True
+            while True:
+                if not blk:
+                    path_ok = False
+                    break
+                last = blk[-1]
+                if isinstance(last, ast.Expr) and isinstance(last.value, ast.Call) and isinstance(last.value.func, ast.Attribute) and last.value.func.attr == "append" \
+                        and isinstance(last.value.func.value, ast.Name) and last.value.func.value.id == L and len(last.value.args) == 1 and not last.value.keywords:
+                    break
+                if isinstance(last, ast.If) and any(isinstance(x, ast.Name) and x.id == L for x in ast.walk(last)):
+                    in_body = any(isinstance(x, ast.Name) and x.id == L for y in last.body for x in ast.walk(y))
+                    in_else = any(isinstance(x, ast.Name) and x.id == L for y in last.orelse for x in ast.walk(y))
+                    if in_body == in_else:
+                        path_ok = False
+                        break
+                    blk = last.body if in_body else last.orelse
+                    continue
+                path_ok = False
+                break
+            if not path_ok:
+                continue
+            app = blk[-1]
+            # the producing loop has no effects of its own
+            quiet = pure_expr(P.iter)
+            for y in ast.walk(ast.Module(body=P.body, type_ignores=[])):
+                if isinstance(y, ast.Assign):
+                    if not all(isinstance(t_, (ast.Name, ast.Tuple)) for t_ in y.targets) or not pure_expr(y.value):
+                        quiet = False
+                elif isinstance(y, ast.Expr):
+                    if y is not app and not (isinstance(y.value, ast.Constant)):
+                        quiet = False
+                elif isinstance(y, (ast.AugAssign, ast.AnnAssign, ast.Delete, ast.With, ast.Try, ast.While, ast.Return, ast.Raise, ast.Break, ast.Global, ast.Nonlocal)):
+                    quiet = False
+            if not quiet or not pure_expr(app.value.args[0]):
+                continue
+            x = C.target.id
+            if any(isinstance(y, ast.Break) for b_ in C.body for y in ast.walk(b_)):
+                continue
+            read_by_prod = {y.id for y in ast.walk(P) if isinstance(y, ast.Name) and isinstance(y.ctx, ast.Load)}
+            stored_by_cons = {y.id for b_ in C.body for y in ast.walk(b_) if isinstance(y, ast.Name) and isinstance(y.ctx, (ast.Store, ast.Del))} | {x}
+            if stored_by_cons & read_by_prod or x in {y.id for y in ast.walk(P) if isinstance(y, ast.Name)}:
+                continue
+            blk[-1:] = [ast.Assign(targets=[ast.Name(id=x, ctx=ast.Store())], value=app.value.args[0], lineno=app.lineno, col_offset=0)] + C.body
+            del lst[cons[0]]
+            del lst[i]
+            ast.fix_missing_locations(fnode)
+            return True
+    return False
+
+
 def star_unpack_of_lists(fnode):
     """first, *rest = L   with L a parameter annotated as a list (or a local bound once to a list display / list(..) / comprehension)
     ->  first = L[0]; rest = L[1:]        (same values for a list; an empty list raises either way, IndexError instead of ValueError)"""
@@ -3382,6 +3765,11 @@ def propagate_readonly_displays(repo, f):
             return "seq"
         if isinstance(v, (ast.List, ast.Tuple)) and 1 <= len(v.elts) <= 8 and all(isinstance(x, ast.Name) and stable(x.id) for x in v.elts):
             return "names"
+        # [p.a, q.b]: attribute paths of parameters, read again where the display is read - accepted below only when nothing between the
+        # display and its last read can change what they denote (no call, no store through an attribute / subscript)
+        if isinstance(v, (ast.List, ast.Tuple)) and 1 <= len(v.elts) <= 8 and all((isinstance(x, ast.Name) and stable(x.id)) or (
+                isinstance(x, ast.Attribute) and isinstance(x.value, ast.Name) and x.value.id in params and stable(x.value.id)) for x in v.elts):
+            return "paths"
         def stable_value(x):
             if isinstance(x, ast.Constant):
                 return True
@@ -3432,9 +3820,27 @@ def propagate_readonly_displays(repo, f):
             after = {id(x) for later in lst[lst.index(st) + 1:] for x in ast.walk(later)}
             if not uses or any(id(u) not in after for u in uses):
                 continue
+            if kind == "paths":
+                k0 = lst.index(st)
+                last = max(j for j, later in enumerate(lst) if j > k0 and any(id(u) in {id(x) for x in ast.walk(later)} for u in uses))
+                quiet = True
+                for later in lst[k0 + 1:last + 1]:
+                    for x in ast.walk(later):
+                        if isinstance(x, ast.Call) and not (isinstance(x.func, ast.Name) and x.func.id in ("len", "range", "zip", "enumerate") and x.func.id not in counts):
+                            quiet = False
+                        if isinstance(x, (ast.Attribute, ast.Subscript)) and isinstance(x.ctx, (ast.Store, ast.Del)):
+                            quiet = False
+                        if isinstance(x, (ast.Await, ast.Yield, ast.YieldFrom)):
+                            quiet = False
+                if not quiet:
+                    continue
+                earlier = {t.id for e_ in lst[:k0] for t in ast.walk(e_) if isinstance(t, ast.Name) and isinstance(t.ctx, ast.Store)}
+                if any(isinstance(x, ast.Name) and x.id not in params and x.id not in earlier for x in st.value.elts):
+                    continue
+                kind = "names"
             if kind == "names":
                 earlier = {t.id for e_ in lst[:lst.index(st)] for t in ast.walk(e_) if isinstance(t, ast.Name) and isinstance(t.ctx, ast.Store)}
-                if any(x.id not in params and x.id not in earlier for x in st.value.elts):
+                if any(isinstance(x, ast.Name) and x.id not in params and x.id not in earlier for x in st.value.elts):
                     continue
             if kind == "dict":
                 # the value names must already be bound where the display is built and never re-bound: parameters, or locals bound once
@@ -4084,6 +4490,18 @@ def partial_evaluate(repo, max_rounds=8):
             if unstar_record_constructions(repo, f, counter):
                 ch = True
                 steps.append("unstar-records")
+            if (steps or q in getattr(repo, "inlined", {})) and fuse_collect_then_iterate(f.node):
+                ch = True
+                steps.append("collect-then-iterate")
+            if (steps or q in getattr(repo, "inlined", {})) and project_comprehension_locals(f.node):
+                ch = True
+                steps.append("comprehension-projections")
+            if (steps or q in getattr(repo, "inlined", {})) and drop_dead_constant_stores(f.node):
+                ch = True
+                steps.append("dead-stores")
+            if (steps or q in getattr(repo, "inlined", {})) and split_conditional_tuples(f.node, counter):
+                ch = True
+                steps.append("conditional-tuples")
             if (steps or q in getattr(repo, "inlined", {})) and scalarise_conditional_records(repo, f):
                 ch = True
                 steps.append("conditional-records")
